@@ -30,16 +30,31 @@ CLAIMED = {
             "World R, honest sequencer: histories of 3..8 batches per run are built with the real PoseidonTree and hashed by the real ComputeInputHashInsertion/Deletion; a grind operation searches commitments (~48 Poseidon evaluations) until pre- and/or post-roots have a leading zero byte, the state the defect needs; every batch's hash is compared with the contract model's Keccak over the canonical fixed-width packing and the parameters are solved on the real R1CS. Found the unpadded-root defect on the pinned tree (fixed, see KNOWN_FINDINGS). The gen-test-params consequence is exercised at process level under C19.",
             "Trusted: x/crypto Keccak, packing from the property text; reach probes (pre/post/both roots short) are reported in evidence.",
             "6.C08"),
+    "C09": ("exploration",
+            SIM + "histories of requests of every class against the real server in a synctest bubble over a simulated network with fragmentation, wrong Content-Length, half-close, reset and vanishing clients; reference classifier written from the property text; proofs decoded by an independent decoder and verified",
+            "World S: per run 3..9 requests over 2..4 connections (sequential keep-alive or pipelined; Content-Length, chunked, Expect: 100-continue) on one real server: valid batches, well-formed-but-invalid batches, wrong shapes, 16 malformed kinds, grey inputs, non-POST methods; request bytes arrive in tape-chosen fragments; network faults cut or over-announce bodies, half-close, reset or leave before the response; a final valid request on a fresh connection must return 200 with a proof that verifies for its own hash. Every response is compared with a three-valued reference classifier (definitely malformed -> 400 malformed_body, well-formed invalid / wrong shape -> 400 proving_error, valid -> 200 + verifying proof, non-POST -> 405, grey -> any documented 400 or a valid 200). Handler crashes surface as missing responses, hangs as 'nothing enabled and 14 s of fake time change nothing'.",
+            "Trusted: net/http's HTTP parsing on both sides; our proof decoder and gnark's verifier; the grey class is deliberately not pinned.",
+            "6.C09"),
     "C10": ("exploration",
             SIM + "proof bytes decided by the seeded crypto/rand seam; real proofs plus a forged-proof adversary (generator multiples searched for short coordinates) round-tripped through the repository's JSON codec against an independent EVM-order decoder and the verifier",
             "Every proof (real ones with tape-chosen prover randomness; forged ones assembled from small multiples of the generators with 1..31 leading zero bytes, incl. (1,2)) is encoded by the repository, decoded by our own decoder and compared coordinate by coordinate with gnark's proof struct in the order A.x A.y B.x1 B.x0 B.y1 B.y0 C.x C.y, decoded by the repository and compared with the original, and verified before and after. Found the left-aligned-copy defect on the pinned tree (fixed, see KNOWN_FINDINGS). Proofs crossing the simulated HTTP wire are additionally decoded under C09/C13.",
             "Trusted: gnark-crypto point arithmetic; reflection over gnark's internal proof struct for ground truth; EVM order from the property text.",
             "6.C10"),
+    "C13": ("exploration",
+            SIM + "2..5 overlapping prove requests on one shared ProvingSystem; every hand-over between handler goroutines is a tape decision at statement granularity of the repository's code (uniform, sticky, PCT, starve-one); per-request oracle",
+            "World S: at least two valid requests with distinct input hashes plus unsatisfiable, mis-shaped, malformed and non-POST ones overlap on one real server; handler goroutines are parked at the inserted yield points (about 60 on the request path incl. JSON decoding, shape validation, witness assembly, error mapping) and released one at a time by the tape, so orders such as 'A decoded its body, B decodes, A proves' are produced on purpose, replayed and shrunk. Each response is judged against its own request only (status, error code, proof verifying for its own hash), and two different requests must not receive the same proof. Coverage is measured as context switches actually taken (site of X -> next site of Y). The data-race clause is not decidable under a serialising scheduler (hand-overs create happens-before edges); it is not claimed by this check yet.",
+            "Trusted: yields only in repository code; gnark's internal worker goroutines run to completion inside one step.",
+            "6.C13"),
     "C14": ("fault_enumeration",
             SIM + "the real server.Run / RunningJob / net/http Shutdown inside a synctest bubble over a simulated network; the stop request is a scheduler action enumerated over every step of the bare start/stop schedule x starved task, and seeded (uniform, sticky, PCT, starve-one) with requests in flight; restart cycles on the same addresses",
             "World S: the instrumented copy of the current tree (a yield before every statement of server/, wrapped_http/, logging/, prover/ request-path code; ListenAndServe split into its library steps pre-check / bind / yield / Serve over simnet) runs in a synctest bubble. Runs 0..1199 enumerate the stop position (every scheduler step 0..119) times the starved task (0..8, plus first-enabled) of the bare start/stop; further runs place stop by tape, incl. relative to a request's arrival so that it lands while handlers are parked mid-proof, over up to 3 start/stop cycles. Oracle: when AwaitStop returns both addresses bind at once; stop/await never get stuck (nothing enabled and 14 s of fake time change nothing); every request whose header block had been taken up by the server when stop was requested receives its complete, correct response (own decoder + Groth16 verify); no goroutine is left blocked at the end of the bubble. Found the bind->serve window defect on the pinned tree (fixed, see KNOWN_FINDINGS). The SIGINT / exit-status clause of the property (a real process) is not covered by this check yet.",
             "Trusted: testing/synctest quiescence and fake clock (go1.26.8); simnet's model of bind/accept/close; yields only in repository code (library code between two yields is atomic).",
             "6.C14"),
+    "C20": ("exploration",
+            SIM + "conservation law over seeded concurrent request mixes with metrics scrapes scheduled as ordinary actions (also while handlers are parked mid-proof); final equality against the simulator's tally, mid-run bounds",
+            "World S: 2..7 requests of all kinds and methods overlap under tape-chosen scheduling; 1..2 scrapes of the separate metrics address are scheduled like any other client action and a final scrape follows the last response. Final: http_requests_total{endpoint_pattern=\"/prove\"} per (method label, code) equals the simulator's tally of responses sent, nothing is reported that was never sent, the sum equals the number of requests, the in-flight gauge exists and is 0. Mid-run: the scrape succeeds while k handlers are parked, and each total lies between responses already received and requests begun. Fault-injecting configurations (clients leaving before the response) are separate from fault-free ones and only widen the tally by an explicit slack.",
+            "Trusted: Prometheus text exposition parsing; client_golang's documented method-label spelling.",
+            "6.C20"),
     "C18": ("exploration",
             "deterministic simulation: seeded update histories of the real off-chain tree in lock-step with a reference leaf-array model; tape shrinking + fresh-process replay",
             "Seeded histories (1..200 updates, depths 1..32, overwrites, zero writes, extreme and neighbouring indices, aliasing probes on earlier returned paths) drive the real PoseidonTree in lock-step with an independent sparse leaf-array model; root, returned path (old value/old root, new value/new root), sibling equality and read-back of untouched leaves are compared after every step. Exploration is the right level: the property quantifies over histories, and a model-based seeded search with shrinking covers far more histories than the suite's zero.",
